@@ -26,6 +26,9 @@
 #ifndef ROUNDS
 #define ROUNDS 1
 #endif
+#ifndef DEDICATED
+#define DEDICATED 0      /* 1: the documented dedicated-master mode: rank 0 only dispatches (MPIMaster(comm, ntasks, false)), ranks 1.. work */
+#endif
 using namespace verif;
 
 #ifndef VERIF_NATIVE
@@ -47,9 +50,24 @@ static void rank_main(long r) {
     boost::mpi::communicator comm;
     for (int t = 0; t < ROUNDS; ++t) {
         cur_round_of[r] = t;
+#if DEDICATED
+        // the loops of test/mpi_dispatcher_test_nomaster.cpp (the library's own example of this mode)
+        if (r == 0) {
+            pMPI::MPIMaster master(comm, (size_t)njobs[t], false);
+            for (; !master.is_finished();) { master.order(); master.check_workers(); }
+            result[t][r] = master.DispatchMap;
+        } else {
+            pMPI::MPIWorker worker(comm, 0);
+            for (; !worker.is_finished();) {
+                worker.receive_order();
+                if (worker.is_working()) { Job((int)worker.current_job(), 1).run(); worker.report_job_done(); }
+            }
+        }
+#else
         pMPI::mpi_skel<Job> skel;
         for (int j = 0; j < njobs[t]; ++j) skel.parts.push_back(Job(j, cplx[t][j]));
         result[t][r] = skel.run(comm, false);
+#endif
         finished_rounds[r] = t + 1;
     }
 }
@@ -78,12 +96,13 @@ extern "C" void h_main() {
     for (int t = 0; t < ROUNDS; ++t) {
         for (int j = 0; j < njobs[t]; ++j) {
             check(exec_count[t][j] == 1, "every job of a round is executed exactly once");
-            for (int r = 0; r < NRANKS; ++r) {
+            for (int r = 0; r < (DEDICATED ? 1 : NRANKS); ++r) {
                 std::map<pMPI::JobId, pMPI::WorkerId>::const_iterator it = result[t][r].find(j);
                 check(it != result[t][r].end() && it->second == exec_rank[t][j], "returned map names the rank that ran the job, on every rank");
             }
         }
-        for (int r = 0; r < NRANKS; ++r) check((int)result[t][r].size() == njobs[t], "returned map has one entry per job");
+        for (int r = 0; r < (DEDICATED ? 1 : NRANKS); ++r) check((int)result[t][r].size() == njobs[t], "returned map has one entry per job");
+        if (DEDICATED) for (int j = 0; j < njobs[t]; ++j) check(exec_rank[t][j] != 0, "a dedicated master runs no job itself");
     }
     for (int i = 0; i < vm::nmsg; ++i) check(vm::msgs[i].state == 2, "no message is left undelivered or unconsumed after the last round");
     record_int("messages", vm::sent_total);
@@ -106,9 +125,25 @@ int main(int argc, char** argv) {
     for (int t = 0; t < ROUNDS; ++t) {
         int nj = (int)__v_sym_int(jn[t], 0, MAXJOBS);
         int local[8] = {0, 0, 0, 0, 0, 0, 0, 0}, total[8];
+#if DEDICATED
+        std::map<pMPI::JobId, pMPI::WorkerId> m;
+        if (world.rank() == 0) {
+            pMPI::MPIMaster master(world, (size_t)nj, false);
+            for (; !master.is_finished();) { master.order(); master.check_workers(); }
+            m = master.DispatchMap;
+        } else {
+            pMPI::MPIWorker worker(world, 0);
+            for (; !worker.is_finished();) {
+                worker.receive_order();
+                if (worker.is_working()) { local[worker.current_job()]++; worker.report_job_done(); }
+            }
+        }
+        boost::mpi::broadcast(world, m, 0);
+#else
         pMPI::mpi_skel<NJob> skel;
         for (int j = 0; j < nj; ++j) { char nm[16]; nm[0] = 'c'; nm[1] = char('0' + t); nm[2] = '_'; nm[3] = char('0' + j); nm[4] = 0; skel.parts.push_back(NJob(j, (int)__v_sym_int(nm, 1, 2), local)); }
         std::map<pMPI::JobId, pMPI::WorkerId> m = skel.run(world, false);
+#endif
         boost::mpi::all_reduce(world, local, 8, total, std::plus<int>());
         for (int j = 0; j < nj; ++j) {
             if (total[j] != 1) { std::printf("FAILED every job of a round is executed exactly once\n"); failed = 1; }
